@@ -42,6 +42,7 @@ var (
 	solveSem  = make(chan struct{}, 16)
 	cacheMu   sync.Mutex
 	solveMemo = map[string]*SolveResult{}
+	inflight  = map[string]chan struct{}{}
 )
 
 func initWork() {
@@ -107,7 +108,18 @@ func solve(text string, budgetS int, cross bool) *SolveResult {
 		cacheMu.Unlock()
 		return r
 	}
+	if w, ok := inflight[key]; ok {
+		cacheMu.Unlock()
+		<-w
+		cacheMu.Lock()
+		r := solveMemo[key]
+		cacheMu.Unlock()
+		return r
+	}
+	done := make(chan struct{})
+	inflight[key] = done
 	cacheMu.Unlock()
+	defer close(done)
 	file := filepath.Join(workDir, key+".smt2")
 	os.WriteFile(file, []byte(text), 0o644)
 	solveSem <- struct{}{}
